@@ -2009,8 +2009,12 @@ func (r *Raft) installSnapshot(rpc RPC, req *InstallSnapshotRequest) {
 			rpcErr = err
 			return
 		}
-		// The log store is empty now, forget the cached tail
+		// The log store is empty now, forget the cached tail. What this
+		// server durably holds from here on is the snapshot just written:
+		// say so at once, or the last index would fall below the commit
+		// index until the FSM has restored.
 		r.setLastLog(0, 0)
+		r.setLastSnapshot(req.LastLogIndex, req.LastLogTerm)
 	} else if err := r.dropUnconfirmedLogs(req.LastLogIndex, req.LastLogTerm); err != nil {
 		r.logger.Error("failed to drop unconfirmed logs", "error", err)
 		rpcErr = err
